@@ -8,9 +8,10 @@
 
     The statement is FALSE for the current code, in six independent ways (known findings K6a-e,g); each has a
     witness below, reproduced on the real code by bin/check C16 (corpus/C16.json).  What is proved for all
-    inputs is [enforces_partial] (per node: [enforces_partial_node]): compiler correctness on the fragment where
-    galaxy is right - the same equation, for every cluster in [frag] and every flow with at most one hooked end
-    per node (see the statements).  Theorems only; proofs are in Proofs/K8sPolicyP.v (refutation) and
+    inputs is [enforces_partial_general] (per node: [enforces_partial_node], per policy chain:
+    [enforces_partial_policy_chain], simple fragment: [enforces_partial]): compiler correctness on the fragment
+    where galaxy is right - the same equation, for every cluster in [frag_g] and every flow without cross-talk and
+    with at most one hooked end per node (see the statements).  Theorems only; proofs are in Proofs/K8sPolicyP.v (refutation) and
     Proofs/K8sPolicyFragP.v (the positive half, on top of the C15 lemmas about a Run from an empty node). *)
 From Coq Require Import List Ascii String NArith Bool.
 From Galaxy.Base Require Import Strs.
@@ -66,8 +67,8 @@ Print Assumptions refutation_verdicts.
 
 (** ---- the positive half: compiler correctness on the fragment where galaxy is right (DESIGN.md appendix D)
 
-    The fragment [frag c] (Proofs/K8sPolicyFragP.v; a boolean, every condition is listed here):
-      (1) every rule of the direction its policy affects has at least one peer                         (K6c outside)
+    The fragment [frag_g c] (Proofs/K8sPolicyFragP.v; a boolean, every condition is listed here):
+      (1) every rule of a direction its policy affects has at least one peer                           (K6c outside)
       (2) every peer is an ipBlock, a namespaceSelector-only peer, or a podSelector-only peer all of whose matching
           pods (of the whole cluster) live in the policy's namespace; no namespaceSelector+podSelector peer
                                                                                                   (K6a, K6b outside)
@@ -75,21 +76,40 @@ Print Assumptions refutation_verdicts.
           strictly longer prefix than its block (block and exception never print to the same set element, K5d)
                                                                                                        (K6d outside)
       (4) every port entry is numeric with protocol "tcp" or "udp"
-      (5) every policy affects exactly one direction (affects_in xor affects_eg, policyTypes defaulted as the API
-          does), and no pod is isolated in both directions (selected by an ingress-affecting and by an
-          egress-affecting policy)                                                                     (K6e outside)
       well-formed cluster: policy keys name_namespace pairwise distinct, pod keys pairwise distinct, pod addresses
       < 2^32 and pairwise distinct.
     Premises on the flow:
       [flow_ok f]: source and destination addresses < 2^32;
+      (5) [no_cross c f]: no policy that selects an egress-isolated pod owning the source address has an INGRESS rule
+          matching the flow (the policy affects ingress and selects the destination, the port matches, a peer matches
+          the source); symmetrically no policy that selects an ingress-isolated pod owning the destination has an
+          EGRESS rule matching the flow                                                                (K6e outside);
       (6) [one_hooked c f]: there is no pair (pod owning the source address, pod owning the destination address) on ONE
           node with the source egress-isolated and the destination ingress-isolated                    (K6g outside).
+    The simple fragment [frag c] = [frag_g c] and (5a) every policy affects exactly one direction (affects_in xor
+    affects_eg, policyTypes defaulted as the API does) and (5b) no pod is isolated in both directions; it implies
+    [no_cross c f] for every flow.
     Premise on the name hash: it does not collide on the policy keys nor on the keys of the pods of a node the flow
-    crosses ([hash_distinct], the premise of C15's sync_exact_partial_fresh); [enforces_partial_inj] discharges it
+    crosses ([hash_distinct], the premise of C15's sync_exact_partial_fresh); the _injective variants discharge it
     for an injective hash.
 
     Then the verdict of the packet walk over the kernels PolicyManager.Run installs (from a node without any
     netfilter state) on the nodes of the two ends IS the NetworkPolicy reference verdict. *)
+Theorem enforces_partial_general : forall (H : str -> str) (c : cluster) (f : flow),
+  (forall n, In n (flow_nodes c f) -> hash_distinct H n c = true) ->
+  frag_g c = true -> flow_ok f = true -> no_cross c f = true -> one_hooked c f = true ->
+  galaxy_allows H c f = k8s_allows c f.
+Proof. exact enforces_partial_g_l. Qed.
+Print Assumptions enforces_partial_general.
+
+Theorem enforces_partial_general_injective : forall H : str -> str, (forall a b, H a = H b -> a = b) ->
+  forall (c : cluster) (f : flow), frag_g c = true -> flow_ok f = true -> no_cross c f = true ->
+  one_hooked c f = true -> galaxy_allows H c f = k8s_allows c f.
+Proof. exact enforces_partial_g_inj. Qed.
+Print Assumptions enforces_partial_general_injective.
+
+(** on the simple fragment (one direction per policy, no pod isolated both ways) the only premise on the flow that
+    depends on the policies is (6) *)
 Theorem enforces_partial : forall (H : str -> str) (c : cluster) (f : flow),
   (forall n, In n (flow_nodes c f) -> hash_distinct H n c = true) ->
   frag c = true -> flow_ok f = true -> one_hooked c f = true ->
@@ -108,15 +128,30 @@ Print Assumptions enforces_partial_injective.
     every pod of n owning the source address may send (egress_ok) and every pod of n owning the destination address
     may receive (ingress_ok) *)
 Theorem enforces_partial_node : forall (H : str -> str) (n : str) (c : cluster) (f : flow),
-  hash_distinct H n c = true -> frag c = true -> flow_ok f = true -> one_hooked c f = true ->
+  hash_distinct H n c = true -> frag_g c = true -> flow_ok f = true -> no_cross c f = true -> one_hooked c f = true ->
   verdict (installed H n c) forward f =
   forallb (fun s => negb (str_eqb (pod_node s) n) || egress_ok c s f) (pods_at c (f_src f)) &&
   forallb (fun d => negb (str_eqb (pod_node d) n) || ingress_ok c d f) (pods_at c (f_dst f)).
 Proof. exact node_enforces. Qed.
 Print Assumptions enforces_partial_node.
 
-(** the fragment is inhabited by a non-trivial cluster: two namespaces, five pods on two nodes, two policies (an
-    ingress policy with a podSelector peer, an ipBlock with an exception, a namespaceSelector peer and tcp+udp
+(** one policy chain (no premise (5), (6)): the installed chain of policy x ACCEPTs the packet exactly when x affects
+    ingress, selects the destination and some ingress rule has a matching port and a peer matching the source - or x
+    affects egress, selects the source and some egress rule has a matching port and a peer matching the destination.
+    (The second disjunct reached from GLX-INGRESS, the first reached from GLX-EGRESS, is the cross-talk K6e.) *)
+Theorem enforces_partial_policy_chain : forall (H : str -> str) (n : str) (c : cluster) (f : flow),
+  hash_distinct H n c = true -> frag_g c = true -> flow_ok f = true ->
+  forall x, In x (c_pols c) ->
+  chain_accepts (k_sets (installed H n c)) (policy_chain_rules (compile_one H c x)) f =
+  affects_in x && (sel_at c x (f_dst f) &&
+     existsb (fun r => port_ok r (f_proto f) (f_dport f) && peers_ok c x r (f_src f)) (np_ingress x)) ||
+  affects_eg x && (sel_at c x (f_src f) &&
+     existsb (fun r => port_ok r (f_proto f) (f_dport f) && peers_ok c x r (f_dst f)) (np_egress x)).
+Proof. exact policy_chain_accepts. Qed.
+Print Assumptions enforces_partial_policy_chain.
+
+(** the simple fragment is inhabited by a non-trivial cluster: two namespaces, five pods on two nodes, two policies
+    (an ingress policy with a podSelector peer, an ipBlock with an exception, a namespaceSelector peer and tcp+udp
     ports; an egress policy with an ipBlock with an exception); six flows satisfying the premises, three allowed
     and three denied - by the reference and by the walk over the installed rules *)
 Example enforces_partial_nonvacuous :
@@ -125,3 +160,13 @@ Example enforces_partial_nonvacuous :
   (map (k8s_allows xp_c) xp_flows = [true; false; true; false; true; false]) /\
   (map (galaxy_allows Hx xp_c) xp_flows = [true; false; true; false; true; false]).
 Proof. exact enforces_partial_example_l. Qed.
+
+(** the general fragment is larger: a cluster with a policy that affects BOTH directions (outside [frag]), five flows
+    satisfying the premises (two allowed, three denied); the K6e witness violates [no_cross] *)
+Example enforces_partial_general_nonvacuous :
+  (frag_g xq_c = true) /\ (frag xq_c = false) /\
+  (forallb (fun f => flow_ok f && no_cross xq_c f && one_hooked xq_c f) xq_flows = true) /\
+  (map (k8s_allows xq_c) xq_flows = [true; true; false; false; false]) /\
+  (map (galaxy_allows Hx xq_c) xq_flows = [true; true; false; false; false]) /\
+  (no_cross Ce fe = false).
+Proof. exact enforces_partial_example_g_l. Qed.
